@@ -1,1 +1,134 @@
-//! cfg(kani) child module of `crates/core/src/archiver/parent.rs` (harnesses to be added)
+//! C11 harnesses: cfg(kani) child module of `archiver/parent.rs`.
+//! BOUNDED in structure (one parent tree with one node named "a", file/dir node types), COMPLETE in
+//! the metadata that decides reuse: size, mtime, ctime (each present or not), inode, the two ignore flags.
+use super::*;
+use crate::backend::node::{Metadata, NodeType};
+use crate::backend::verif_mock::{Log, MockDecryptFull};
+use crate::blob::{BlobId, BlobType, DataId};
+use crate::id::Id;
+use crate::index::{IndexEntry, ReadIndex};
+use jiff::Timestamp;
+use std::path::PathBuf;
+use std::sync::Arc;
+
+fn any_ts() -> Option<Timestamp> {
+    let present: bool = kani::any();
+    let s: i64 = kani::any();
+    kani::assume(s >= 0 && s < 4);
+    if present { Some(Timestamp::from_second(s).unwrap()) } else { None }
+}
+
+fn any_type() -> NodeType {
+    if kani::any() { NodeType::File } else { NodeType::Dir }
+}
+
+fn node(name: &str, node_type: NodeType, size: u64, mtime: Option<Timestamp>, ctime: Option<Timestamp>, inode: u64, content: Option<Vec<DataId>>) -> Node {
+    Node {
+        name: name.to_string(),
+        node_type,
+        meta: Metadata {
+            mode: None, mtime, atime: None, ctime, uid: None, gid: None, user: None, group: None,
+            inode, device_id: 0, size, links: 0, extended_attributes: Vec::new(),
+        },
+        content,
+        subtree: None,
+    }
+}
+
+fn did(b: u8) -> DataId {
+    let mut a = [0u8; 32];
+    a[0] = b;
+    DataId::from(Id::new(a))
+}
+
+/// U11.1: a parent node is accepted as "unchanged" only if type, size and mtime agree (and ctime,
+/// unless ignored or unknown on one side); a name without parent node is NotFound.
+#[kani::proof]
+#[kani::unwind(6)]
+fn c11_is_parent_requires_equal_metadata() {
+    let (pt, psize, pmtime, pctime, pinode) = (any_type(), kani::any::<u64>(), any_ts(), any_ts(), kani::any::<u64>());
+    let (nt, nsize, nmtime, nctime, ninode) = (any_type(), kani::any::<u64>(), any_ts(), any_ts(), kani::any::<u64>());
+    let ignore_ctime: bool = kani::any();
+    let ignore_inode: bool = kani::any();
+    let tree = Tree { nodes: vec![node("a", pt.clone(), psize, pmtime, pctime, pinode, None)] };
+    let mut parent = Parent { tree_ids: Vec::new(), trees: vec![(tree, 0)], stack: Vec::new(), ignore_ctime, ignore_inode };
+    let n = node("a", nt.clone(), nsize, nmtime, nctime, ninode, None);
+
+    let same_core = pt == nt && psize == nsize && pmtime == nmtime;
+    let ctime_ok = ignore_ctime || pctime.is_none() || nctime.is_none() || pctime == nctime;
+    let matched = matches!(parent.is_parent(&n, std::ffi::OsStr::new("a")), ParentResult::Matched(_));
+    if matched {
+        assert!(same_core, "reuse requires identical type, size and modification time");
+        assert!(ctime_ok, "reuse requires an identical change time unless ignored / unknown");
+    }
+    // the decisive direction for C11: a file whose size or mtime changed is never taken from the parent
+    if psize != nsize || pmtime != nmtime || pt != nt {
+        assert!(!matched);
+    }
+    kani::cover!(matched);
+    kani::cover!(!matched && same_core);
+    core::mem::forget(parent);
+    core::mem::forget(n);
+}
+
+#[kani::proof]
+#[kani::unwind(6)]
+fn c11_unknown_name_is_not_found() {
+    let tree = Tree { nodes: vec![node("a", NodeType::File, kani::any(), any_ts(), any_ts(), kani::any(), None)] };
+    let mut parent = Parent { tree_ids: Vec::new(), trees: vec![(tree, 0)], stack: Vec::new(), ignore_ctime: kani::any(), ignore_inode: kani::any() };
+    let n = node("b", NodeType::File, kani::any(), any_ts(), any_ts(), kani::any(), None);
+    let r = parent.is_parent(&n, std::ffi::OsStr::new("b"));
+    assert!(matches!(r, ParentResult::NotFound));
+    core::mem::forget(parent);
+    core::mem::forget(n);
+}
+
+#[derive(Clone, Debug)]
+struct MockIndex {
+    has1: bool,
+    has2: bool,
+}
+impl ReadIndex for MockIndex {
+    fn get_id(&self, _tpe: BlobType, _id: &BlobId) -> Option<IndexEntry> {
+        None
+    }
+    fn total_size(&self, _tpe: BlobType) -> u64 {
+        0
+    }
+    fn has(&self, tpe: BlobType, id: &BlobId) -> bool {
+        tpe == BlobType::Data && ((*id == BlobId::from(did(1)) && self.has1) || (*id == BlobId::from(did(2)) && self.has2))
+    }
+}
+impl ReadGlobalIndex for MockIndex {}
+
+/// U11.2: content is taken over from a matching parent node only if ALL its chunks are still in the
+/// index; otherwise the file is reported NotFound (= read again).
+#[kani::proof]
+#[kani::unwind(34)]
+fn c11_reuse_only_if_all_chunks_indexed() {
+    let size: u64 = kani::any();
+    let mtime = any_ts();
+    let p = node("a", NodeType::File, size, mtime, None, 0, Some(vec![did(1), did(2)]));
+    let tree = Tree { nodes: vec![p] };
+    let mut parent = Parent { tree_ids: Vec::new(), trees: vec![(tree, 0)], stack: Vec::new(), ignore_ctime: true, ignore_inode: false };
+    let n = node("a", NodeType::File, size, mtime, None, 0, None);
+    let index = MockIndex { has1: kani::any(), has2: kani::any() };
+    let be = MockDecryptFull::new(0, Arc::new(Log::new()));
+    let r = parent.process(&be, &index, TreeType::<(), OsString>::Other((PathBuf::new(), n, ())));
+    match r {
+        Ok(TreeType::Other((_, out, ((), res)))) => {
+            let reused = matches!(res, ParentResult::Matched(()));
+            assert!(reused == (index.has1 && index.has2), "reuse iff every chunk of the parent file is still indexed");
+            if reused {
+                assert!(out.content.as_ref().map(Vec::len) == Some(2));
+            } else {
+                assert!(matches!(res, ParentResult::NotFound) && out.content.is_none(), "missing chunk: the file is read again");
+            }
+            core::mem::forget(out);
+        }
+        _ => assert!(false),
+    }
+    kani::cover!(index.has1 && index.has2);
+    kani::cover!(index.has1 && !index.has2);
+    core::mem::forget(parent);
+}
